@@ -654,3 +654,28 @@ def run(repo: Repo, rep: Report, tier: str) -> None:
     ok26 = bool(own26) and bool(foreign26) and all(g26.dominates(own26[0], n) for n in foreign26)
     rep.check(ok26, "C15-R26", "_memory_signal_type: the scoped record is consulted before the program-wide tables", "own record first" if ok26 else
               "the analyzer's name-keyed table answers before the lowering's own record", mst.loc(foreign26[0]) if foreign26 else mst.loc())
+
+    # ---------------- R27 --------------------------------------------------------------
+    rep.rule("C15-R27", "an `int` declared in a function or loop body is the compile-time constant it is at top level: the lowering keeps an integer-valued declaration as a raw "
+             "integer when the *declaration* says `int` (the symbol of a body-local is out of reach by then) — otherwise it becomes a constant combinator, and "
+             "`int k = 3; for j in 0..k { ... }` in a function body ends in an uncaught ValueError while the substituted program compiles")
+    raw27 = [st for st in walk_local(lds.node) if isinstance(st, ast.Assign) and isinstance(st.targets[0], ast.Subscript) and norm(st.targets[0].value) == "self.parent.signal_refs"
+             and isinstance(st.value, ast.Name)]
+    ok27 = False
+    for st in raw27:
+        par = pm19.get(st)
+        if isinstance(par, ast.If) and any(isinstance(b, ast.Return) for b in par.body) and "IntValue" in norm(par.test):
+            ok27 = f"{decl_p}.type_name == 'int'" in norm(par.test) and isinstance(par.test, ast.BoolOp) and isinstance(par.test.op, ast.Or)
+            rep.check(ok27, "C15-R27", "lower_decl_stmt: the declared type `int` alone makes the value a raw integer", norm(par.test)[:100] if ok27 else
+                      f"`{norm(par.test)[:90]}`: only a symbol found in the global table does; a body-local int is materialised as a signal", lds.loc(par))
+            break
+    else:
+        raise AnalysisError("C15-R27: the raw-integer store of lower_decl_stmt was not found")
+
+    # ---------------- R28 --------------------------------------------------------------
+    rep.rule("C15-R28", "the fresh id of a re-expanded memory is free: `mem_<name>_<n>` can be the id of a memory the program itself called `<name>_<n>`, so the id taken from the "
+             "counter is probed against the builder's index until it is unused")
+    loops28 = [n for n in walk_local(lmd.node) if isinstance(n, ast.While) and any(call_name(c) == "get_operation" for c in ast.walk(n.test) if isinstance(c, ast.Call))
+               and any(isinstance(b, ast.Assign) and isinstance(b.value, ast.Call) and call_name(b.value) == "next_id" for b in n.body)]
+    rep.check(bool(loops28), "C15-R28", "lower_mem_decl: the counter id is probed until it is unused", "while <index has it>: take the next" if loops28 else
+              "the counter id is used unseen: `Memory m_5` next to a function-local `Memory m` expanded twice gives two cells called mem_m_5", lmd.loc())
